@@ -71,6 +71,12 @@ func enumerateC07(t *testing.T, seed uint64, emit emitFn) {
 			tx.Ops = append(ops, Op{K: "preCommit"})
 		})
 	}
+	// the type of the injected error rotates through the flavours (plain and the library's own error types)
+	nflav := seed
+	flavour := func() string {
+		nflav++
+		return faultFlavours[nflav%uint64(len(faultFlavours))]
+	}
 	seenEv := map[string]bool{}
 	for _, e := range info.Events {
 		key := e.Store + "|" + e.Type + "|" + e.Id
@@ -81,14 +87,14 @@ func enumerateC07(t *testing.T, seed uint64, emit emitFn) {
 		for _, typed := range []bool{true, false} {
 			e, typed := e, typed
 			variant("enum-F3", func(p *Plan, tx *TxPlan) {
-				tx.Faults = append(tx.Faults, Fault{Kind: "F3", Store: e.Store, Change: e.Type, Id: e.Id, Typed: typed})
+				tx.Faults = append(tx.Faults, Fault{Kind: "F3", Store: e.Store, Change: e.Type, Id: e.Id, Typed: typed, Flavour: flavour()})
 			})
 		}
 	}
 	for _, sk := range info.Touched {
 		parts := strings.SplitN(sk, ":", 2)
 		variant("enum-F6", func(p *Plan, tx *TxPlan) {
-			tx.Faults = append(tx.Faults, Fault{Kind: "F6", Site: parts[0], Key: parts[1]})
+			tx.Faults = append(tx.Faults, Fault{Kind: "F6", Site: parts[0], Key: parts[1], Flavour: flavour()})
 		})
 	}
 	for _, fp := range []string{"beforeWriteMetaError", "lackOfDiskSpace"} {
